@@ -29,6 +29,11 @@ partial def parseSeq (cs : List Char) (acc : Array Sexp) : Array Sexp × List Ch
 
 def parseLine (line : String) : List Sexp := (parseSeq line.toList #[]).1.toList
 
+/-- canonical text of an s-expression (single spaces) -/
+partial def Sexp.show : Sexp → String
+  | .atom s => s
+  | .list xs => "(" ++ " ".intercalate (xs.map Sexp.show) ++ ")"
+
 def hexNib (c : Char) : Option Nat :=
   if '0' ≤ c && c ≤ '9' then some (c.toNat - 48)
   else if 'a' ≤ c && c ≤ 'f' then some (c.toNat - 87)
